@@ -19,6 +19,8 @@ TERM = re.compile(r"chalk_ir::(Ty|Substitution|Lifetime|Const|DynTy|ProjectionTy
 
 
 def run(ck, facts, tier):
+    from shared import clauses as _clx
+    _clx.clauses_no_drop(ck, facts, "C21.CLAUSES-NO-DROP")
     R = "C21.PIPELINE"
     ck.rule(R, "K3/K4: checked_program calls coherence()? first, then loops over adt_data.keys(), opaque_ty_data.keys() and impl_data.keys() "
                "calling the matching verify_* with `?`; every verify_* builds Ok only on has_unique_solution == true and its WfError only on "
